@@ -412,7 +412,10 @@ func (ex *Exec) selectField(v TV, name string, st *State) TV {
 		np := p
 		np.Path = append(append([]int(nil), p.Path...), idx...)
 		if !transparentStruct(typeAtPath(p.Root, p.Path)) {
-			panic(unsupported("spec: field of opaque struct " + typeName(pt.Elem())))
+			// field of an opaque (library) struct: the same uninterpreted getfield the executor uses for loads
+			base := p
+			op := PtrV{Kind: pOpaque, Base: &base, Fld: sanitize(typeName(typeAtPath(p.Root, p.Path))) + "." + name, Root: ft}
+			return TV{ex.loadIn(st, op), ft}
 		}
 		return TV{ex.loadIn(st, np), ft}
 	}
